@@ -66,6 +66,16 @@ CHECKS = {
         "note": "Trusted: Lean kernel; the factories' option parsing is mirrored by hand (validated by the differential); buildHandler/main propagate the error (glue read, not modelled).",
         "technique": "Lean 4 proof (induction on the chain) + differential correspondence",
     },
+    "C16": {
+        "text": "Lean theorems over the model of RequestContextMiddleware: with a feature enabled the response carries the header and its value equals what is forwarded to the backend; a supplied non-blank identifier is propagated unchanged; a missing/blank one is generated; disabled means untouched; generated identifiers are an injective function of the 12 random bytes; the header set before the chain survives every inner response path that does not overwrite it (Base writer model). Tied to the code by differential requests through the real buildHandler composition (plugins -> middleware -> balancer) with a real backend reporting what it saw, over the 200/401/413/429/503 paths and default/custom header names.",
+        "note": "Trusted: Lean kernel; crypto/rand yields distinct draws (assumption; duplicates among observed IDs are counted by the harness); HTTP/1.1 trims SP/HTAB around values before handlers see them (emulated by the harness); chains containing the `request-id` plugin (overwrites by design) are excluded.",
+        "technique": "Lean 4 proof (decision logic; injectivity of hex encoding; header-survival invariant) + differential correspondence",
+    },
+    "C18": {
+        "text": "Lean theorem validate_iff_documented: the first-error validator accepts a configuration iff the declaratively stated documented constraints hold, section by section, for every combination; validate_first gives the reported rule as the first violated one; the breaker relation needed by C08 follows from acceptance; the shipped helios.yaml as a Lean value is accepted. Tied to the code by loading YAML assembled from per-section valid/invalid variants with the real LoadConfig (exact first-error id compared), starting NewLoadBalancer/buildHandler/createHTTPServer in-process, plugin options in YAML typings, and by loading helios.yaml, helios.docker.yaml and every complete README configuration on every run.",
+        "note": "Trusted: Lean kernel; yaml.v3 decoding; Documented transcribed from README/docs by hand; listeners/TLS files not exercised.",
+        "technique": "Lean 4 proof (rule list vs declarative constraints) + differential correspondence",
+    },
 }
 
 NOT_APPLICABLE = {}
